@@ -490,7 +490,11 @@ def agree_ref(ctx, fi, ref_src, title, what=('return', 'heap', 'substores'), rul
             bound in the same loop iteration: no other object can see it, and its effect is part of every later value that
             reads the local -- compared there, not as a store of its own"""
             bn = e.data.get('base_node')
-            if not isinstance(bn, ast.Name) or _root_base(e.data['base']).single_atom() is not None:
+            ra = _root_base(e.data['base']).single_atom()
+            fresh_call = ra is not None and ra.kind == 'call' and ra.args[0] in (
+                'binBitAnd', 'binBitOr', 'binBitXor', 'binRShift', 'binLShift', 'floordiv', 'mod', 'astype', 'copy', 'abs',
+                'round', 'floor', 'ceil', 'trunc', 'min', 'max', 'where', 'real', 'imag')
+            if not isinstance(bn, ast.Name) or (ra is not None and not fresh_call):
                 return False
             defs = [d for d in II.events if d.kind == 'store' and d.data.get('target') == 'name' and d.data.get('name') == bn.id
                     and d.seq < e.seq]
@@ -695,10 +699,45 @@ def unordered_iteration(tree_or_func):
             for t in ast.walk(n.target):
                 if isinstance(t, ast.Name):
                     assigns.setdefault((id(scope_of(n)), t.id), []).append(None)
+    # functions of this module by name (a method called as self.f(...) / cls.f(...) or a plain function): an unordered value
+    # handed to one of them is judged at the uses of the corresponding parameter inside it
+    by_name = {}
+    for f_ in funcs:
+        if isinstance(f_, ast.FunctionDef):
+            by_name.setdefault(f_.name, []).append(f_)
+    handed = {}         # id(argument expression) -> True when its receiving parameter was found
+
+    def callee_param(call, arg):
+        fn = call.func
+        name = fn.id if isinstance(fn, ast.Name) else fn.attr if (
+            isinstance(fn, ast.Attribute) and isinstance(fn.value, ast.Name) and fn.value.id in ('self', 'cls')) else None
+        cands = by_name.get(name, [])
+        if len(cands) != 1:
+            return None
+        fd = cands[0]
+        ps = [a.arg for a in fd.args.posonlyargs + fd.args.args]
+        if isinstance(fn, ast.Attribute) and ps:
+            ps = ps[1:]
+        for kw in call.keywords:
+            if kw.value is arg and kw.arg in ps + [a.arg for a in fd.args.kwonlyargs]:
+                return fd, kw.arg
+        if arg in call.args and not any(isinstance(a, ast.Starred) for a in call.args):
+            i = call.args.index(arg)
+            if i < len(ps):
+                return fd, ps[i]
+        return None
     for _ in range(3):
         for k, vals in assigns.items():
             if vals and all(v is not None and unordered(v) for v in vals):
                 tainted[k] = True
+        for c_ in ast.walk(root):
+            if isinstance(c_, ast.Call):
+                for a_ in list(c_.args) + [kw.value for kw in c_.keywords]:
+                    if unordered(a_):
+                        cp_ = callee_param(c_, a_)
+                        if cp_ is not None and (id(cp_[0]), cp_[1]) not in assigns:
+                            tainted[(id(cp_[0]), cp_[1])] = True
+                            handed[id(a_)] = True
 
     def body_insensitive(loop):
         loaded_outside = set()
@@ -767,6 +806,8 @@ def unordered_iteration(tree_or_func):
             cp = parent.get(id(comp))
             if isinstance(cp, ast.Call) and comp in cp.args and isinstance(cp.func, ast.Name) and cp.func.id in _INSENSITIVE:
                 continue
+        if handed.get(id(n)):
+            continue        # judged at the uses of the receiving parameter in the callee
         if isinstance(p, ast.Return) or isinstance(p, ast.keyword) or (isinstance(p, ast.Call) and n in p.args) \
                 or isinstance(p, (ast.For, ast.comprehension, ast.Starred, ast.Subscript, ast.Tuple, ast.List, ast.Dict,
                                   ast.Attribute, ast.Assign, ast.JoinedStr, ast.FormattedValue, ast.Yield, ast.Expr)):
